@@ -378,7 +378,8 @@ example : Dispatch.faConsistent ⟨"X", 33, "faCongr", "-", "depth", "true", "id
 * **Link between the dispatch table and the models.**  `C09_dispatch` is about the table regenerated from the sources;
   which Lean model stands for which callee (`faAntichain` ↦ `checkNfaInclAC`, `faCongr` with `depth` / `breadth` ↦
   `checkNfaInclCongr · · false / true`) is the reading of the table, not a theorem.
-* No totality theorem for the references `inclW` / `W.inclRef`: they return `none` on too little fuel; every `some` is
-  exact.  The models are total with explicit (exponential, not tight) fuel bounds.
+* The references `inclW` / `W.inclRef` are total above the explicit bound `fuelBoundW [A, B]` (`C09_reference_total` in
+  `Vata/Properties/RefTotal.lean`).  The models are total with explicit fuel bounds.  All bounds are exponential
+  worst-case bounds, not tight.
 -/
 end Vata.Props
